@@ -1,10 +1,15 @@
-"""Registry of translators: name -> function(repo) that (re)writes one file under coq/gen/."""
-import gen_elements
-import gen_runtime
-import gen_stereo
+"""Registry of translators: every tools/gen_<name>.py with a main(repo) function is a translator called <name>;
+it (re)writes files under coq/gen/ (only on change) and raises coqfmt.TranslatorError when the source has a shape it
+does not recognise (fail closed)."""
+import glob
+import importlib
+import os
 
-TRANSLATORS = {
-    'elements': lambda repo: gen_elements.main(repo),
-    'runtime': lambda repo: gen_runtime.main(repo),
-    'stereo': lambda repo: gen_stereo.main(repo),
-}
+TRANSLATORS = {}
+for path in sorted(glob.glob(os.path.join(os.path.dirname(os.path.abspath(__file__)), 'gen_*.py'))):
+    name = os.path.basename(path)[4:-3]
+    if name == 'all':
+        continue
+    mod = importlib.import_module('gen_' + name)
+    if hasattr(mod, 'main'):
+        TRANSLATORS[name] = (lambda m: (lambda repo: m.main(repo)))(mod)
